@@ -11,6 +11,7 @@ import asyncio
 import itertools
 import json
 import random
+from typing import Any
 
 import httpx
 
@@ -52,6 +53,11 @@ def body_classes(rng: random.Random, thorough: bool):
     for i, v in enumerate([{}, {"foo": 1}, {"extensions": {}}, {"Data": {}}, {"error": []}]):
         out.append(("object-neither-key/%d" % i, json.dumps(v).encode()))
     datas = [{"a": 1}, {}, {"nested": {"l": [1, None, {"x": "y"}]}}, None, [], 0, "", "scalar", [1, 2]]
+    # beyond example sizes: a tree a few hundred levels deep (a JSON-scalar field holding a document), a list of thousands, a long string
+    deep: Any = {"leaf": 1}
+    for _ in range(300):
+        deep = {"child": deep, "l": [deep]} if _ % 50 == 49 else {"child": deep}
+    datas += [{"tree": deep}, {"items": list(range(3000))}, {"text": "x" * 200000}]
     for i, d in enumerate(datas):
         out.append(("data-only/%d" % i, json.dumps({"data": d}).encode()))
         out.append(("data+extensions/%d" % i, json.dumps({"data": d, "extensions": {"t": 1}}).encode()))
